@@ -14,8 +14,8 @@
 using namespace sim;
 using namespace mpt;
 
-enum { OP_COUNTER, OP_TAKE, OP_DROP, OP_WRAP_ASSIGN, OP_REFARRAY_SET, OP_REFARRAY_CLONE, OP_REFARRAY_WRITE, OP_REFARRAY_RELEASE, OP_CXXREF, OP_LIB_TAKE, OP_LIB_DROP, OP_LIB_NEW, OP_BUF_CLONE };
-static const char *const OPS[] = {"COUNTER", "TAKE", "DROP", "ASSIGN_BY_CONVERSION", "REFARRAY_SET", "REFARRAY_CLONE", "REFARRAY_WRITE", "REFARRAY_RELEASE", "CXX_REFERENCE", "LIB_TAKE", "LIB_DROP", "LIB_NEW", "BUFFER_CLONE", 0};
+enum { OP_COUNTER, OP_TAKE, OP_DROP, OP_WRAP_ASSIGN, OP_REFARRAY_SET, OP_REFARRAY_CLONE, OP_REFARRAY_WRITE, OP_REFARRAY_RELEASE, OP_CXXREF, OP_LIB_TAKE, OP_LIB_DROP, OP_LIB_NEW, OP_BUF_CLONE, OP_MISMATCH_CLONE };
+static const char *const OPS[] = {"COUNTER", "TAKE", "DROP", "ASSIGN_BY_CONVERSION", "REFARRAY_SET", "REFARRAY_CLONE", "REFARRAY_WRITE", "REFARRAY_RELEASE", "CXX_REFERENCE", "LIB_TAKE", "LIB_DROP", "LIB_NEW", "BUFFER_CLONE", "MISMATCHED_CLONE", 0};
 enum { FL_NONE, FL_ALLOC, FL_REFUSE };
 static const char *const FAULTS[] = {"none", "allocfail", "refuse_addref", 0};
 
@@ -61,7 +61,7 @@ struct RefsWorld : World {
 		int nops = (int) r.range(1, tier ? 100 : 50);
 		bool allocf = r.chance(1, 3), refuse = r.chance(1, 2);
 		for (int i = 0; i < nops; ++i) {
-			Op op; op.kind = (int) r.below(13);
+			Op op; op.kind = (int) r.below(14);
 			op.a = r.below(3) | (r.below(3) << 8) | (r.below(4) << 16); // object, second object, holder slot
 			op.b = r.below(6); op.c = r.below(1000);
 			if (refuse && r.chance(1, 4)) op.fault = FL_REFUSE;
@@ -249,6 +249,23 @@ struct RefsWorld : World {
 				if (k == 3) { int c = simio::get(lib_fd)->closes - closes_before; if ((lib_model[k] == 0) != (c >= 1)) fail(lib_model[k] ? "destroyed-early" : "never-destroyed", "stream input: descriptor closed %d time(s) with %ld holders left", c, lib_model[k]); if (c > 1) st.hit("probe:descriptor_closed_twice"); }
 				if (lib_model[k] == 0) lib[k] = 0;
 				outcome = freed ? 2 : 1;
+				break;
+			}
+			case OP_MISMATCH_CLONE: {
+				// assignment between arrays of different content types must be refused and must not touch any count
+				int h = (int) (op.c % 3);
+				if (!ra.buf || !bufh[h].buf) break;
+				bool dir = (op.b & 1) != 0;
+				int rc; { Sut su; rc = dir ? mpt_array_clone(AR(ra), AR(bufh[h])) : mpt_array_clone(AR(bufh[h]), AR(ra)); }
+				log.ev("MISMATCHED_CLONE %s -> %d", dir ? "reference array := raw buffer" : "raw buffer := reference array", rc);
+				if (rc >= 0) fail("assign-wrong", "assignment between arrays of different content types accepted");
+				// the buffers' own counts: a refused assignment leaves no extra reference behind
+				{ long holders = 0; for (auto &x : bufh) if (x.buf == bufh[h].buf) ++holders;
+				  bool shared_flag = (bufh[h].buf->get_flags() & BufferShared) != 0;
+				  if (shared_flag != (holders > 1)) fail("count-mismatch", "raw buffer with %ld holder(s) reports shared=%d after a refused assignment", holders, (int) shared_flag); }
+				{ long holders = (ra.buf == rb.buf) ? 2 : 1; bool shared_flag = (ra.buf->get_flags() & BufferShared) != 0;
+				  if (shared_flag != (holders > 1)) fail("count-mismatch", "reference array buffer with %ld holder(s) reports shared=%d after a refused assignment", holders, (int) shared_flag); }
+				outcome = 1;
 				break;
 			}
 			case OP_BUF_CLONE: {
